@@ -70,6 +70,10 @@ let handle fields impl : string option * string list =
         | _ -> np (m_key true (key_types net) key)) in
       ((if model = proj impl then None else Some ("model=" ^ model ^ " impl=" ^ proj impl)), monitor kind net impl)
     end
+  | ["liveflood"; proto; n] ->
+    ((if impl = "alive" then None else Some "model=alive"),
+     (if impl = "dead" then ["node-killed-by-remote-input-" ^ proto ^ " the child process died during a flood of " ^ n ^ " uTP datagrams after an empty one"]
+      else if impl = "silent" then ["node-silent-after-remote-input-" ^ proto ^ " after an empty uTP TALKREQ and " ^ n ^ " uTP datagrams the uTP talk handler no longer answers (three TALKREQs in a row unanswered)"] else []))
   | ["live"; proto; _] ->
     (* the model's verdict for every input is "no panic", hence the node survives *)
     ((if impl = "alive" then None else Some "model=alive"),
